@@ -3,6 +3,7 @@ CONSTANTS
   CRev = 54457
   SRev = 54460
   Behaviour = "hello"
+  CancelAt = 99
   Delay = 0
   Limit = 5
   AddendumRev = 54458
@@ -13,5 +14,6 @@ INVARIANT AddendumIff
 INVARIANT FailsCleanly
 INVARIANT LateHelloAccepted
 INVARIANT ExceptionCarried
+INVARIANT CancelEndsIt
 PROPERTY Terminates
 CHECK_DEADLOCK FALSE
